@@ -3,9 +3,12 @@ package main
 // Rules added in the fifth round (seeded changes m13-m15 and the re-run of rounds 1-4).
 
 import (
+	"fmt"
+	"os"
 	"go/ast"
 	"go/token"
 	"go/types"
+	"strings"
 )
 
 // ---------------------------------------------------------------- C03-c records reach encoding/csv verbatim
@@ -305,4 +308,323 @@ func c06GzipProbe(c *Ctx, r *Report, rule string) {
 			"with the gunzip flag set there is a path to this successful return that never probed the content with gzip.NewReader: a gzip stream arriving that way (FIFO, /dev/stdin, procfs: size 0, no regular mode) is read as raw bytes and cut into garbage lines without any error")
 	}
 	r.Floor(rule, 1, "openFileToReader's successful return")
+}
+
+// ---------------------------------------------------------------- C01-a each class under its documented condition
+
+// emptinessOf: is cond (with the given truth) a statement about the emptiness
+// of the value of obj? Returns +1 (known non-empty), -1 (known empty), 0.
+func emptinessOf(info *types.Info, cond ast.Expr, truth bool, obj types.Object) int {
+	be, ok := ast.Unparen(cond).(*ast.BinaryExpr)
+	if !ok {
+		return 0
+	}
+	lenOf := func(e ast.Expr) bool {
+		ce, ok := ast.Unparen(e).(*ast.CallExpr)
+		return ok && calleeName(info, ce) == "builtin.len" && len(ce.Args) == 1 && identObj(info, ce.Args[0]) == obj
+	}
+	x, y, op := be.X, be.Y, be.Op
+	if lenOf(y) || identObj(info, y) == obj {
+		x, y = y, x
+		switch op {
+		case token.LSS:
+			op = token.GTR
+		case token.GTR:
+			op = token.LSS
+		case token.LEQ:
+			op = token.GEQ
+		case token.GEQ:
+			op = token.LEQ
+		}
+	}
+	res := 0
+	if lenOf(x) {
+		k, isConst := constInt(info, y)
+		if !isConst {
+			return 0
+		}
+		switch {
+		case op == token.GTR && k == 0, op == token.NEQ && k == 0, op == token.GEQ && k == 1:
+			res = 1
+		case op == token.EQL && k == 0, op == token.LEQ && k == 0, op == token.LSS && k == 1:
+			res = -1
+		}
+	} else if identObj(info, x) == obj {
+		if s, isStr := constString(info, y); isStr && s == "" {
+			switch op {
+			case token.NEQ:
+				res = 1
+			case token.EQL:
+				res = -1
+			}
+		} else if id, isId := ast.Unparen(y).(*ast.Ident); isId && id.Name == "nil" {
+			switch op {
+			case token.NEQ:
+				res = 1
+			case token.EQL:
+				res = -1
+			}
+		}
+	}
+	if !truth {
+		res = -res
+	}
+	return res
+}
+
+// c01ClassConditions (C01-a/class-condition): the property fixes when a line
+// belongs to each class - matched: a non-empty key was produced; ignored: an
+// ignore expression was truthy or the key was empty; unmatched: the matcher
+// found nothing. On every acyclic path of processLineSync the class that the
+// path counts must be backed by the corresponding decision on that path.
+func c01ClassConditions(c *Ctx, r *Report, rule string) {
+	fi := c.MustFunc(r, rule, extractorPkg, "(*extractorInstance).processLineSync")
+	if fi == nil {
+		return
+	}
+	info := fi.Pkg.TypesInfo
+	var keyObj, matchObj types.Object
+	ast.Inspect(fi.Decl.Body, func(x ast.Node) bool {
+		as, ok := x.(*ast.AssignStmt)
+		if !ok || len(as.Rhs) != 1 || len(as.Lhs) != 1 {
+			return true
+		}
+		ce, ok := ast.Unparen(as.Rhs[0]).(*ast.CallExpr)
+		if !ok {
+			return true
+		}
+		nm := calleeName(info, ce)
+		switch {
+		case strings.HasSuffix(nm, ").BuildKey"):
+			keyObj = identObj(info, as.Lhs[0])
+		case strings.HasSuffix(nm, ".FindSubmatchIndex"):
+			matchObj = identObj(info, as.Lhs[0])
+		}
+		return true
+	})
+	if keyObj == nil || matchObj == nil {
+		r.Undecided(rule, fi.Name, "key / match variables", c.Pos(fi.Decl.Pos()), "cannot find the variables that hold the matcher's result and the built key")
+		return
+	}
+	fg := NewFGraph(fi.Decl.Body, info)
+	enumPaths(fg, fg.Entry, func(id int) bool { return id == fg.Exit }, func(nodes []int, edges []FEdge) {
+		counts := map[string]int{}
+		var retPos token.Pos
+		for _, id := range nodes {
+			nd := fg.Nodes[id]
+			if nd.N == nil {
+				continue
+			}
+			for _, t := range atomicAddTarget(info, nd.N) {
+				counts[t]++
+			}
+			if rs, ok := nd.N.(*ast.ReturnStmt); ok {
+				retPos = rs.Pos()
+			}
+		}
+		ignoreTruthy, keyState, matchState := false, 0, 0
+		for _, e := range edges {
+			if e.Cond == nil || e.Tag != nil {
+				continue
+			}
+			for _, at := range atomise(Fact{e.Cond, nil, e.Truth}) {
+				cond, truth := at.Cond, at.Truth
+				if ce, ok := cond.(*ast.CallExpr); ok && strings.HasSuffix(calleeName(info, ce), ".IgnoreMatch") && truth {
+					ignoreTruthy = true
+				}
+				if v := emptinessOf(info, cond, truth, keyObj); v != 0 {
+					keyState = v
+				}
+				if v := emptinessOf(info, cond, truth, matchObj); v != 0 {
+					matchState = v
+				}
+			}
+		}
+		if os.Getenv("RARECHECK_TRACE") != "" {
+			for _, e := range edges {
+				if e.Cond != nil {
+					fmt.Fprintf(os.Stderr, "  edge %s = %v (tag %v)\n", exprStr(e.Cond), e.Truth, e.Tag != nil)
+				}
+			}
+			fmt.Fprintf(os.Stderr, " -> counts %v ignoreTruthy=%v key=%d match=%d\n", counts, ignoreTruthy, keyState, matchState)
+		}
+		class, ok, want := "unmatched", false, ""
+		switch {
+		case counts["matchedLines"] > 0:
+			class, ok, want = "matched", keyState > 0, "the built key is known non-empty"
+		case counts["ignoredLines"] > 0:
+			class, ok, want = "ignored", ignoreTruthy || keyState < 0, "an ignore expression answered true or the built key is known empty"
+		default:
+			ok, want = matchState < 0, "the matcher's result is known empty"
+		}
+		r.Check(ok, rule, fi.Name, "path counted as "+class, c.Pos(retPos), "path: the class is backed by its documented decision on the path ("+want+")",
+			"a path through processLineSync counts the line as "+class+" although on that path it is not established that "+want+": the line ends in a class the property does not put it in (its key is lost or the totals are wrong)")
+	})
+	r.Floor(rule, 4, "unmatched, ignored by expression, ignored by empty key, matched")
+}
+
+
+// ---------------------------------------------------------------- C05-a a locked snapshot of a slice/map is still the shared storage
+
+// c05SnapshotEscape (C05-a/snapshot-escape): copying a slice or map field
+// into a local while holding the lock copies the header only; the elements
+// stay shared. If that local is read after the lock was released while some
+// writer of the field updates the storage in place (element store, append,
+// copy, delete), the read races with the writer although every *selector*
+// access to the field is locked - which is all the lock-set rule sees.
+func c05SnapshotEscape(c *Ctx, r *Report, units []*bodyUnit, rule string) {
+	type guarded struct {
+		f, mutex *types.Var
+		owner    string
+	}
+	var fields []guarded
+	for _, p := range c.Pkgs {
+		if isTestSupportPkg(p.PkgPath) {
+			continue
+		}
+		sc := p.Types.Scope()
+		for _, name := range sc.Names() {
+			tn, ok := sc.Lookup(name).(*types.TypeName)
+			if !ok {
+				continue
+			}
+			st, ok := tn.Type().Underlying().(*types.Struct)
+			if !ok {
+				continue
+			}
+			var mutex *types.Var
+			for i := 0; i < st.NumFields(); i++ {
+				if f := st.Field(i); isNamed(f.Type(), "sync", "Mutex") || isNamed(f.Type(), "sync", "RWMutex") {
+					mutex = f
+				}
+			}
+			if mutex == nil {
+				continue
+			}
+			for i := 0; i < st.NumFields(); i++ {
+				f := st.Field(i)
+				switch f.Type().Underlying().(type) {
+				case *types.Slice, *types.Map:
+					fields = append(fields, guarded{f, mutex, p.PkgPath + "." + name})
+				}
+			}
+		}
+	}
+	// is the storage of f ever updated in place?
+	inPlace := map[*types.Var]string{}
+	for _, u := range units {
+		info := u.Pkg.TypesInfo
+		rootedAt := func(e ast.Expr) *types.Var {
+			for {
+				e = ast.Unparen(e)
+				switch t := e.(type) {
+				case *ast.SliceExpr:
+					e = t.X
+					continue
+				case *ast.IndexExpr:
+					e = t.X
+					continue
+				}
+				break
+			}
+			return fieldVar(info, e)
+		}
+		inspectNoLit(u.Body, func(n ast.Node) bool {
+			switch t := n.(type) {
+			case *ast.AssignStmt:
+				for _, l := range t.Lhs {
+					if ix, ok := ast.Unparen(l).(*ast.IndexExpr); ok {
+						if fv := rootedAt(ix.X); fv != nil {
+							inPlace[fv] = "element store in " + u.Name
+						}
+					}
+				}
+			case *ast.IncDecStmt:
+				if ix, ok := ast.Unparen(t.X).(*ast.IndexExpr); ok {
+					if fv := rootedAt(ix.X); fv != nil {
+						inPlace[fv] = "element update in " + u.Name
+					}
+				}
+			case *ast.CallExpr:
+				nm := calleeName(info, t)
+				if (nm == "builtin.append" || nm == "builtin.copy" || nm == "builtin.delete" || nm == "builtin.clear") && len(t.Args) > 0 {
+					if fv := rootedAt(t.Args[0]); fv != nil {
+						inPlace[fv] = strings.TrimPrefix(nm, "builtin.") + " in " + u.Name
+					}
+				}
+			}
+			return true
+		})
+	}
+	for _, g := range fields {
+		how, mutated := inPlace[g.f]
+		if !mutated {
+			continue
+		}
+		for _, u := range units {
+			info := u.Pkg.TypesInfo
+			inspectNoLit(u.Body, func(n ast.Node) bool {
+				as, ok := n.(*ast.AssignStmt)
+				if !ok || len(as.Lhs) != len(as.Rhs) {
+					return true
+				}
+				for i, rhs := range as.Rhs {
+					e := ast.Unparen(rhs)
+					if se, isSlice := e.(*ast.SliceExpr); isSlice {
+						e = ast.Unparen(se.X)
+					}
+					sel, isSel := e.(*ast.SelectorExpr)
+					if !isSel || fieldVar(info, sel) != g.f {
+						continue
+					}
+					local, _ := identObj(info, as.Lhs[i]).(*types.Var)
+					if local == nil || local.IsField() || local.Parent() == local.Pkg().Scope() {
+						continue
+					}
+					id := u.FG.NodeOf(as.Pos())
+					want := exprStr(sel.X) + "." + g.mutex.Name()
+					if id < 0 || !u.Locks[id].holds(want) {
+						continue // not a locked snapshot: the lock-set rule already reports unlocked accesses
+					}
+					// every use of the local
+					var bad ast.Node
+					inspectNoLit(u.Body, func(x ast.Node) bool {
+						idn, ok := x.(*ast.Ident)
+						if !ok || info.Uses[idn] != local || bad != nil {
+							return true
+						}
+						nid := u.FG.NodeOf(idn.Pos())
+						if nid >= 0 && !u.Locks[nid].holds(want) {
+							bad = idn
+						}
+						return true
+					})
+					// handing the alias to the caller lets it outlive a deferred unlock as well
+					escapes := false
+					inspectNoLit(u.Body, func(x ast.Node) bool {
+						if rs, ok := x.(*ast.ReturnStmt); ok {
+							for _, res := range rs.Results {
+								if identObj(info, res) == local {
+									escapes = true
+									if bad == nil {
+										bad = rs
+									}
+								}
+							}
+						}
+						return true
+					})
+					_ = escapes
+					pos := as.Pos()
+					if bad != nil {
+						pos = bad.Pos()
+					}
+					r.Check(bad == nil, rule, u.Name, local.Name()+" := "+exprStr(rhs), c.Pos(pos), "lockset: the local alias of the guarded "+g.owner+"."+g.f.Name()+" is only used while "+g.mutex.Name()+" is held",
+						fmt.Sprintf("%s is a copy of the slice/map header of %s.%s taken under %s, but it is used after the lock was released (or handed to the caller); the storage is still the shared one and is updated in place elsewhere (%s): the read races with that writer although every direct access to the field is locked", local.Name(), g.owner, g.f.Name(), g.mutex.Name(), how))
+				}
+				return true
+			})
+		}
+	}
+	// "for every" rule: no instance on the pinned tree, so no floor; seed C05-m14 is its positive example
 }
